@@ -61,6 +61,35 @@ class C04Monitor(fitsim.Monitor):
         self.old = None
         self.info = workload.kind_info(cfg["kind"])
 
+    def after_suffstats(self, w, k, stats):
+        """The iteration's own statistics are the documented functions of the current latent values (the closed forms below are
+        stated in terms of them: a statistic that is not what its name says would make every rule 'consistent' and wrong)."""
+        C = self.C
+        s = w.state
+        where = f"k={k} kind={self.cfg['kind']}"
+        C["probe.statistics_content_checked"] += 1
+        for nm in sorted(stats):
+            val = stats[nm]
+            exp = None
+            if nm in s.dag and nm in (set(w.pop_names()) | set(w.ind_names())):
+                exp = s[nm]
+            elif nm.endswith("_sqr") and nm[:-4] in (set(w.pop_names()) | set(w.ind_names())):
+                exp = s[nm[:-4]] ** 2
+            elif nm == "model_x_model" and "model" in s.dag:
+                exp = wv(s["model"]) ** 2
+            elif nm == "y_x_model" and "model" in s.dag and "y" in s.dag:
+                exp = torch.where(s["y"].weight > 0, s["y"].value, torch.zeros_like(s["y"].value)) * wv(s["model"])
+            if exp is None:
+                continue
+            g, e = rm.f64(wv(val)), rm.f64(wv(exp))
+            if nm == "y_x_model":
+                g = np.where(rm.weights(s["y"]) > 0, g, 0.0)
+                e = np.where(rm.weights(s["y"]) > 0, e, 0.0)
+            if g.shape != e.shape or not np.allclose(g, e, rtol=1e-5, atol=1e-7, equal_nan=True):
+                violation(self.out, "statistics_content", f"statistic_is_not_what_it_is_named:{'sqr' if nm.endswith('_sqr') else ('value' if nm in s.dag else nm)}",
+                          f"{where}: {nm}: {g.reshape(-1)[:4].tolist()} vs {e.reshape(-1)[:4].tolist()}")
+                return
+
     def before_update(self, w, k, S, burn_in):
         s = w.state
         self.old = {p: s[p] for p in w.param_names()}
